@@ -52,7 +52,8 @@ DirTypes  == {"DL0", "DL1", "DL2"}       \* Directory<Leaf<i>>
 RDirTypes == {"RL0", "RL1"}              \* RecursiveDirectory<Leaf<i>>
 StorTypes == {"S0"}                      \* a plain Storable (never loadable)
 ArcTypes  == {"AL0", "AL2"}              \* Arc<Leaf<i>>: loads like Leaf<i>, reloadable iff Leaf<i> is
-Types == LeafTypes \cup NodeTypes \cup DirTypes \cup RDirTypes \cup StorTypes \cup ArcTypes
+OnceTypes == {"OL0", "OL2"}              \* OnceInitCell<Option<Leaf<i>>, _>: same
+Types == LeafTypes \cup NodeTypes \cup DirTypes \cup RDirTypes \cup StorTypes \cup ArcTypes \cup OnceTypes
 
 TypeInfo == [ty \in Types |->
   CASE ty = "L0" -> [kind |-> "leaf", hot |-> TRUE,  exts |-> <<"x">>,           dflt |-> FALSE]
@@ -72,7 +73,9 @@ TypeInfo == [ty \in Types |->
     [] ty = "RL1" -> [kind |-> "rdir", hot |-> TRUE, exts |-> <<>>, dflt |-> FALSE, of |-> "L1", dirty |-> "DL1"]
     [] ty = "S0"  -> [kind |-> "stor", hot |-> FALSE, exts |-> <<>>, dflt |-> FALSE]
     [] ty = "AL0" -> [kind |-> "arc", hot |-> TRUE,  exts |-> <<>>, dflt |-> FALSE, of |-> "L0"]
-    [] ty = "AL2" -> [kind |-> "arc", hot |-> FALSE, exts |-> <<>>, dflt |-> FALSE, of |-> "L2"]]
+    [] ty = "AL2" -> [kind |-> "arc", hot |-> FALSE, exts |-> <<>>, dflt |-> FALSE, of |-> "L2"]
+    [] ty = "OL0" -> [kind |-> "arc", hot |-> TRUE,  exts |-> <<>>, dflt |-> FALSE, of |-> "L0"]
+    [] ty = "OL2" -> [kind |-> "arc", hot |-> FALSE, exts |-> <<>>, dflt |-> FALSE, of |-> "L2"]]
 
 SeqToSet(s) == {s[i] : i \in 1..Len(s)}
 
